@@ -599,6 +599,50 @@ func (s *shaper) service(k int) {
 }
 
 // extraShapes draws the hand-built files of a case: none at all for half of the cases.
+// ctlFamily: controllers that extend each other across packages (seventh seed batch). The root carries the
+// class-level mapping, the controllers below it none of their own; each file's entries are its own handlers
+// under its own class-level mapping, whichever of the family's files were scanned before it.
+func (s *shaper) ctlFamily(k int) {
+	t := s.t
+	pkgs := []string{"com.acme.web.base", "com.acme.web.mid", "com.acme.web.api"}
+	if rapid.Bool().Draw(t, "famOnePackage") {
+		pkgs = []string{"com.acme.web", "com.acme.web", "com.acme.web"}
+	}
+	// names that sort in either order, so that the scan reaches parent and child both ways round
+	names := [][]string{{"ApiRoot", "MidCtl", "UsersCtl"}, {"ZRootCtl", "MidCtl", "AUsersCtl"}, {"BaseCtl", "ZMidCtl", "AccountCtl"}}[rapid.IntRange(0, 2).Draw(t, "famNames")]
+	levels := rapid.IntRange(2, 3).Draw(t, "famLevels")
+	for lv := 0; lv < levels; lv++ {
+		var b strings.Builder
+		imp := ""
+		if lv > 0 && pkgs[lv] != pkgs[lv-1] {
+			imp = fmt.Sprintf("%s.%s%d", pkgs[lv-1], names[lv-1], k)
+		}
+		header(&b, pkgs[lv], "org.springframework.web.bind.annotation.*", imp)
+		stereo := rapid.SampledFrom([]string{"@RestController\n", "@Controller\n"}).Draw(t, "famAnn")
+		base := ""
+		if lv == 0 {
+			base = rapid.SampledFrom([]string{"@RequestMapping(\"/api\")\n", "@RequestMapping(value = \"/api/v2\")\n", "@RequestMapping(path = \"/root\")\n"}).Draw(t, "famBase")
+		}
+		if rapid.Bool().Draw(t, "famBaseFirst") {
+			b.WriteString(base + stereo)
+		} else {
+			b.WriteString(stereo + base)
+		}
+		ext := ""
+		if lv > 0 {
+			ext = fmt.Sprintf(" extends %s%d", names[lv-1], k)
+		}
+		fmt.Fprintf(&b, "public class %s%d%s {\n", names[lv], k, ext)
+		fmt.Fprintf(&b, "    @GetMapping(\"/%s%d\")\n    public String list%d() {\n        return \"x\";\n    }\n", strings.ToLower(names[lv]), k, lv)
+		if rapid.Bool().Draw(t, "famSecondHandler") {
+			fmt.Fprintf(&b, "\n    @PostMapping(\"/%s%d/new\")\n    public String create%d(@RequestBody Dto0 dto) {\n        return \"x\";\n    }\n", strings.ToLower(names[lv]), k, lv)
+		}
+		b.WriteString("}\n")
+		s.add("ctl", pkgs[lv], fmt.Sprintf("%s%d", names[lv], k), b.String())
+	}
+	s.feat["controllers_extending_each_other"] = true
+}
+
 func (s *shaper) extraShapes() {
 	t := s.t
 	n := 0
@@ -612,7 +656,7 @@ func (s *shaper) extraShapes() {
 		count[5]++
 	}
 	for i := 0; i < n; i++ {
-		kind := rapid.SampledFrom([]int{0, 1, 2, 3, 4, 5, 0, 2, 5, 5}).Draw(t, "shapeKind")
+		kind := rapid.SampledFrom([]int{0, 1, 2, 3, 4, 5, 0, 2, 5, 5, 6, 6}).Draw(t, "shapeKind")
 		k := count[kind]
 		count[kind]++
 		switch kind {
@@ -626,6 +670,8 @@ func (s *shaper) extraShapes() {
 			s.job(k)
 		case 4:
 			s.bareController(k)
+		case 6:
+			s.ctlFamily(k)
 		default:
 			s.service(k)
 		}
